@@ -1308,8 +1308,9 @@ func (e *MetaCDC) startReplicateDMLMsg(replicateCtx context.Context, entity *Rep
 				}
 				err := packer.Receive(replicateMsg, replicateMsgsFunc)
 				if err != nil {
+					// the task which owns the failed pack has been paused in the replicateMsgsFunc,
+					// the current pack, which only triggers the batch, may belong to another task
 					log.Warn("fail to pack the replicate message", zap.Any("pack", replicateMsg), zap.Error(err))
-					_ = e.pauseTaskWithReason(taskID, "fail to pack replicate message, err:"+err.Error(), []meta.TaskState{})
 					return
 				}
 				verifSync("dml", channelName)
